@@ -1092,42 +1092,126 @@ theorem sim_K (hR : R env m s) (hw : wellTyped [Ty.num, Ty.num, Ty.num, Ty.num] 
 
 /-- The device colour spaces in pdfminer's table: components and initial colour as Table 74 says. -/
 theorem deviceCS_model (n : String) (k : Nat) (h : deviceCS n = some k) :
-    csLookup n = some (n, k) ∧ initialColor (n, k) = some (initialColour k) ∧ (k = 1 ∨ k = 3 ∨ k = 4) := by
+    csLookup n = some (n, k) ∧ initialColor (n, k) = some (initialColourOf n k) ∧ (k = 1 ∨ k = 3 ∨ k = 4) := by
   unfold deviceCS at h
   split at h <;> simp only [Option.some.injEq, reduceCtorEq] at h <;> subst h
   · exact ⟨by decide, by decide, by decide⟩
   · exact ⟨by decide, by decide, by decide⟩
   · exact ⟨by decide, by decide, by decide⟩
 
+/-- `_initial_color` of a space of a known family with 1, 3 or 4 components is Table 74's. -/
+theorem initialColor_family (fam : String) (k : Nat) (hf : knownFamily fam = true) (hk : k = 1 ∨ k = 3 ∨ k = 4) :
+    initialColor (fam, k) = some (initialColourOf fam k) := by
+  have hp : fam ≠ "Pattern" := by
+    intro h; subst h; revert hf; decide
+  have hk1 : ¬ k < 1 := by omega
+  unfold initialColor initialColourOf
+  simp only [hp, hk1, or_self, if_false]
+  by_cases hc : fam = "DeviceCMYK"
+  · simp [hc]
+  · simp only [hc, if_false]
+    by_cases hs : fam = "Separation" ∨ fam = "DeviceN"
+    · simp [hs]
+    · simp [hs]
+
+/-- What `cs`/`CS` resolve their operand to: pdfminer's `csmap` against the text model's reading. -/
+theorem csResolve_model (res : Res) (n : String) :
+    (∀ fam k, csResolve res n = .defined fam k →
+      ∃ cs : CS, csLookupIn res n = some cs ∧ cs.2 = k ∧ initialColor cs = some (initialColourOf fam k) ∧
+        (k = 1 ∨ k = 3 ∨ k = 4)) ∧
+    (csResolve res n = .undefined → csLookupIn res n = none) := by
+  unfold csResolve csLookupIn
+  cases hl : lookupCS n res.cspaces with
+  | some p =>
+    obtain ⟨fam0, n0⟩ := p
+    simp only
+    constructor
+    · intro fam k h
+      split at h
+      · rename_i hc
+        simp only [CSRes.defined.injEq] at h
+        obtain ⟨rfl, rfl⟩ := h
+        simp only [Bool.and_eq_true, Bool.or_eq_true, decide_eq_true_eq] at hc
+        exact ⟨(fam0, n0), rfl, rfl, initialColor_family fam0 n0 hc.1 (by omega), by omega⟩
+      · simp at h
+    · intro h
+      split at h <;> simp at h
+  | none =>
+    simp only
+    cases hd : deviceCS n with
+    | some k =>
+      simp only
+      obtain ⟨h1, h2, h3⟩ := deviceCS_model n k hd
+      constructor
+      · intro fam k' h
+        simp only [CSRes.defined.injEq] at h
+        obtain ⟨hfam, hk⟩ := h
+        subst hfam; subst hk
+        exact ⟨(n, k), h1, rfl, h2, h3⟩
+      · intro h; simp at h
+    | none =>
+      simp only
+      constructor
+      · intro fam k h
+        split at h <;> simp at h
+      · intro h
+        split at h
+        · simp at h
+        · rename_i hne
+          simp only [not_or] at hne
+          have hdev : n ≠ "DeviceGray" ∧ n ≠ "DeviceRGB" ∧ n ≠ "DeviceCMYK" := by
+            unfold deviceCS at hd
+            refine ⟨?_, ?_, ?_⟩ <;> (intro h'; subst h'; simp at hd)
+          simp [csLookup, lookup, PREDEFINED_COLORSPACE, hne.1, hne.2.1, hne.2.2.1, hne.2.2.2.1, hne.2.2.2.2.1,
+            hne.2.2.2.2.2, hdev.1, hdev.2.1, hdev.2.2]
+
 theorem sim_cs (hR : R env m s) (hw : wellTyped [Ty.name] args = true)
     (happ : apply env rfS s .cs args = some (s', gl)) :
     R env (call env rfM m .cs args).1 s' ∧ (call env rfM m .cs args).2 = gl := by
   obtain ⟨n, rfl⟩ := shape_name args hw
   simp only [apply] at happ
+  obtain ⟨hdef, hund⟩ := csResolve_model s.res n
   split at happ
-  · simp at happ
-  · rename_i k hk
-    obtain ⟨h1, h2, h3⟩ := deviceCS_model n k hk
+  · rename_i fam k hk
+    obtain ⟨cs, h1, h2, h3, h4⟩ := hdef fam k hk
     simp only [Option.some.injEq, Prod.mk.injEq] at happ
     obtain ⟨rfl, rfl⟩ := happ
-    simp only [call, h1, h2]
+    rw [← hR.res] at h1
+    simp only [call, h1, h3]
     refine ⟨⟨?_, hR.dctm, hR.stack, hR.txt, hR.res, hR.args, hR.fuel⟩, by first | rfl | trivial⟩
-    exact { hR.g with fill := rfl, ncs := rfl, fillN := h3 }
+    exact { hR.g with fill := rfl, ncs := h2, fillN := h4 }
+  · rename_i hk
+    have h1 := hund hk
+    simp only [Option.some.injEq, Prod.mk.injEq] at happ
+    obtain ⟨rfl, rfl⟩ := happ
+    rw [← hR.res] at h1
+    simp only [call, h1]
+    exact ⟨hR, by first | rfl | trivial⟩
+  · simp at happ
 
 theorem sim_CS (hR : R env m s) (hw : wellTyped [Ty.name] args = true)
     (happ : apply env rfS s .CS args = some (s', gl)) :
     R env (call env rfM m .CS args).1 s' ∧ (call env rfM m .CS args).2 = gl := by
   obtain ⟨n, rfl⟩ := shape_name args hw
   simp only [apply] at happ
+  obtain ⟨hdef, hund⟩ := csResolve_model s.res n
   split at happ
-  · simp at happ
-  · rename_i k hk
-    obtain ⟨h1, h2, h3⟩ := deviceCS_model n k hk
+  · rename_i fam k hk
+    obtain ⟨cs, h1, h2, h3, h4⟩ := hdef fam k hk
     simp only [Option.some.injEq, Prod.mk.injEq] at happ
     obtain ⟨rfl, rfl⟩ := happ
-    simp only [call, h1, h2]
+    rw [← hR.res] at h1
+    simp only [call, h1, h3]
     refine ⟨⟨?_, hR.dctm, hR.stack, hR.txt, hR.res, hR.args, hR.fuel⟩, by first | rfl | trivial⟩
-    exact { hR.g with stroke := rfl, scs := rfl, strokeN := h3 }
+    exact { hR.g with stroke := rfl, scs := h2, strokeN := h4 }
+  · rename_i hk
+    have h1 := hund hk
+    simp only [Option.some.injEq, Prod.mk.injEq] at happ
+    obtain ⟨rfl, rfl⟩ := happ
+    rw [← hR.res] at h1
+    simp only [call, h1]
+    exact ⟨hR, by first | rfl | trivial⟩
+  · simp at happ
 
 /-- `Do` of a form XObject: the caller's state afterwards is what it was before. -/
 theorem sim_Do (hrf : Agree env rfM rfS) (hR : R env m s) (hw : wellTyped [Ty.name] args = true)
@@ -1143,19 +1227,25 @@ theorem sim_Do (hrf : Agree env rfM rfS) (hR : R env m s) (hw : wellTyped [Ty.na
     · rename_i fm hfm
       split at happ
       · simp at happ
-      · rename_i gl' hrun
-        simp only [Option.some.injEq, Prod.mk.injEq] at happ
-        obtain ⟨rfl, rfl⟩ := happ
-        have hi' : lookup n m.res.xobjs = some i := by rw [hR.res]; exact hi
-        have hR0 : R env
-            { MState.init (mult_matrix (fm.matrix.getD MATRIX_IDENTITY) m.ctm) (fm.res.getD m.res) with
-              ts := m.ts, scolor := m.scolor, ncolor := m.ncolor, scs := m.scs, ncs := m.ncs }
-            ⟨{ s.gs with ctm := mult_matrix (fm.matrix.getD MATRIX_IDENTITY) s.gs.ctm }, [], none, fm.res.getD s.res⟩ :=
-          ⟨{ hR.g with ctm := by simp [MState.init, hR.g.ctm] }, rfl, trivial, trivial, by simp [MState.init, hR.res], rfl, rfl⟩
-        have hm := hrf fm _ _ _ _ hR0 hrun
-        simp only [call, hi', hfm, hm]
-        refine ⟨⟨hR.g, rfl, hR.stack, hR.txt, hR.res, hR.args, ?_⟩, by first | rfl | trivial⟩
-        simp [hR.fuel]
+      · rename_i hact
+        split at happ
+        · simp at happ
+        · rename_i gl' hrun
+          simp only [Option.some.injEq, Prod.mk.injEq] at happ
+          obtain ⟨rfl, rfl⟩ := happ
+          have hi' : lookup n m.res.xobjs = some i := by rw [hR.res]; exact hi
+          have hact' : m.res.active.contains i = false := by rw [hR.res]; simpa using hact
+          have hR0 : R env
+              { MState.init (mult_matrix (fm.matrix.getD MATRIX_IDENTITY) m.ctm)
+                  { fm.res.getD m.res with active := i :: m.res.active } with
+                ts := m.ts, scolor := m.scolor, ncolor := m.ncolor, scs := m.scs, ncs := m.ncs }
+              ⟨{ s.gs with ctm := mult_matrix (fm.matrix.getD MATRIX_IDENTITY) s.gs.ctm }, [], none,
+                { fm.res.getD s.res with active := i :: s.res.active }⟩ :=
+            ⟨{ hR.g with ctm := by simp [MState.init, hR.g.ctm] }, rfl, trivial, trivial, by simp [MState.init, hR.res], rfl, rfl⟩
+          have hm := hrf fm _ _ _ _ hR0 hrun
+          simp only [call, hi', hfm, hact', Bool.false_eq_true, if_false, hm]
+          refine ⟨⟨hR.g, rfl, hR.stack, hR.txt, hR.res, hR.args, ?_⟩, by first | rfl | trivial⟩
+          simp [hR.fuel]
 
 theorem numsOf_nums (qs : List Rat) : numsOf (qs.map Obj.num) = qs := by
   induction qs with
@@ -1304,31 +1394,39 @@ theorem run_sim (hrf : Agree env rfM rfS) (is : List Instr) :
         rw [execToks_append]
         exact ⟨hR2, by rw [hg1, hg2]⟩
 
-theorem parseInstrs_sound (toks : List Tok) :
-    ∀ (acc : List Obj) (is : List Instr), parseInstrs toks acc = (is, []) →
-      acc.map Tok.opnd ++ toks = is.flatMap Instr.toks := by
+/-- Grouping the tokens into instructions loses nothing: the instructions followed by the
+operands left over after the last operator are the token sequence again. -/
+theorem parseInstrs_sound' (toks : List Tok) :
+    ∀ (acc : List Obj) (is : List Instr) (tr : List Obj), parseInstrs toks acc = (is, tr) →
+      acc.map Tok.opnd ++ toks = is.flatMap Instr.toks ++ tr.map Tok.opnd := by
   induction toks with
   | nil =>
-    intro acc is h
+    intro acc is tr h
     simp only [parseInstrs, Prod.mk.injEq] at h
     obtain ⟨rfl, rfl⟩ := h
     simp
   | cons t rest ih =>
-    intro acc is h
+    intro acc is tr h
     cases t with
     | opnd o =>
       simp only [parseInstrs] at h
-      have := ih (acc ++ [o]) is h
+      have := ih (acc ++ [o]) is tr h
       simpa using this
     | op o =>
       simp only [parseInstrs] at h
-      rcases hp : parseInstrs rest [] with ⟨is', tr⟩
+      rcases hp : parseInstrs rest [] with ⟨is', tr'⟩
       rw [hp] at h
       simp only [Prod.mk.injEq] at h
       obtain ⟨rfl, rfl⟩ := h
-      have := ih [] is' hp
+      have := ih [] is' tr' hp
       simp only [List.map_nil, List.nil_append] at this
       simp [List.flatMap_cons, Instr.toks, this]
+
+theorem parseInstrs_sound (toks : List Tok) :
+    ∀ (acc : List Obj) (is : List Instr), parseInstrs toks acc = (is, []) →
+      acc.map Tok.opnd ++ toks = is.flatMap Instr.toks := by
+  intro acc is h
+  simpa using parseInstrs_sound' toks acc is [] h
 
 theorem R_init (ctm : Matrix) (res : Res) : R env (MState.init ctm res) ⟨GS.init ctm, [], none, res⟩ := by
   refine ⟨?_, rfl, trivial, trivial, rfl, rfl, rfl⟩
@@ -1392,12 +1490,15 @@ theorem apply_mono (env : Env) {rf1 rf2 : Form → GS → Res → Option (List G
     split at hh
     · simp at hh
     · rename_i fm hfm
-      simp only at hh ⊢
       split at hh
       · simp at hh
-      · rename_i gl hrun
-        simp only [h _ _ _ _ hrun]
-        exact hh
+      · rename_i hact
+        simp only [hact, if_false] at hh ⊢
+        split at hh
+        · simp at hh
+        · rename_i gl hrun
+          simp only [h _ _ _ _ hrun]
+          exact hh
 
 theorem step_mono (env : Env) {rf1 rf2 : Form → GS → Res → Option (List Glyph)} (h : RfLe rf1 rf2) (s : SState)
     (i : Instr) (r : SState × List Glyph) : step env rf1 s i = some r → step env rf2 s i = some r := by
@@ -1470,8 +1571,8 @@ theorem doSetColor_inv (st : MState) (b : Bool) :
 /-- No `do_*` method changes the resources; only `Do` can clear the budget flag, and only when
 the form it runs does. -/
 theorem call_inv (env : Env) (rf : Form → MState → List Glyph × Bool) (st : MState) (op : Op) (args : List Obj)
-    (hrf : ∀ n j fm, lookup n st.res.xobjs = some j → env.forms[j]? = some fm →
-      ∀ st0 : MState, st0.fuelOk = true → st0.res = fm.res.getD st.res → (rf fm st0).2 = true)
+    (hrf : ∀ j fm, env.forms[j]? = some fm → st.res.active.contains j = false →
+      ∀ st0 : MState, st0.fuelOk = true → st0.res.active = j :: st.res.active → (rf fm st0).2 = true)
     (hf : st.fuelOk = true) :
     (call env rf st op args).1.res = st.res ∧ (call env rf st op args).1.fuelOk = true := by
   unfold call
@@ -1490,15 +1591,19 @@ theorem call_inv (env : Env) (rf : Form → MState → List Glyph × Bool) (st :
       split
       · simp [hf]
       · rename_i fm hfm
-        have := hrf nm j fm hj hfm
-          { MState.init (mult_matrix (fm.matrix.getD MATRIX_IDENTITY) st.ctm) (fm.res.getD st.res) with
-            ts := st.ts, scolor := st.scolor, ncolor := st.ncolor, scs := st.scs, ncs := st.ncs } rfl rfl
-        simp [hf, this]
+        split
+        · simp [hf]
+        · rename_i hact
+          have := hrf j fm hfm (by simpa using hact)
+            { MState.init (mult_matrix (fm.matrix.getD MATRIX_IDENTITY) st.ctm)
+                { fm.res.getD st.res with active := j :: st.res.active } with
+              ts := st.ts, scolor := st.scolor, ncolor := st.ncolor, scs := st.scs, ncs := st.ncs } rfl rfl
+          simp [hf, this]
   · simp [hf]
 
 theorem execTok_inv (env : Env) (rf : Form → MState → List Glyph × Bool) (st : MState) (t : Tok)
-    (hrf : ∀ n j fm, lookup n st.res.xobjs = some j → env.forms[j]? = some fm →
-      ∀ st0 : MState, st0.fuelOk = true → st0.res = fm.res.getD st.res → (rf fm st0).2 = true)
+    (hrf : ∀ j fm, env.forms[j]? = some fm → st.res.active.contains j = false →
+      ∀ st0 : MState, st0.fuelOk = true → st0.res.active = j :: st.res.active → (rf fm st0).2 = true)
     (hf : st.fuelOk = true) :
     (execTok env rf st t).1.res = st.res ∧ (execTok env rf st t).1.fuelOk = true := by
   cases t with
@@ -1513,8 +1618,8 @@ theorem execTok_inv (env : Env) (rf : Form → MState → List Glyph × Bool) (s
       · simp [hf]
 
 theorem execToks_inv (env : Env) (rf : Form → MState → List Glyph × Bool) (res : Res)
-    (hrf : ∀ n j fm, lookup n res.xobjs = some j → env.forms[j]? = some fm →
-      ∀ st0 : MState, st0.fuelOk = true → st0.res = fm.res.getD res → (rf fm st0).2 = true)
+    (hrf : ∀ j fm, env.forms[j]? = some fm → res.active.contains j = false →
+      ∀ st0 : MState, st0.fuelOk = true → st0.res.active = j :: res.active → (rf fm st0).2 = true)
     (toks : List Tok) : ∀ st : MState, st.res = res → st.fuelOk = true →
       (execToks env rf st toks).1.res = res ∧ (execToks env rf st toks).1.fuelOk = true := by
   induction toks with
@@ -1525,30 +1630,82 @@ theorem execToks_inv (env : Env) (rf : Form → MState → List Glyph × Bool) (
     obtain ⟨h3, h4⟩ := execTok_inv env rf st t (by rw [h1]; exact hrf) h2
     exact ih _ (by rw [h3, h1]) h4
 
-/-- Every form carries its own resource dictionary, and it names only forms earlier in the table:
-the call graph of `Do` is acyclic and form `i` nests at most `i` levels deep. -/
-def Ranked (env : Env) : Prop :=
-  ∀ i fm, env.forms[i]? = some fm → ∃ r, fm.res = some r ∧ ∀ n j, lookup n r.xobjs = some j → j < i
+/-- Forms of the table that are not being painted: the nesting that is still possible. -/
+def freeForms (env : Env) (active : List Nat) : Nat :=
+  ((List.range env.forms.length).filter (fun j => !active.contains j)).length
 
-/-- With a ranked form table, form `i` never exhausts a budget larger than `i`. -/
-theorem runForm_budget (env : Env) (hr : Ranked env) : ∀ (i : Nat) (fm : Form) (m0 : MState) (fuel : Nat),
-    env.forms[i]? = some fm → m0.res = fm.res.getD m0.res → m0.fuelOk = true → i < fuel →
-    (Interp.runForm env fuel fm m0).2 = true := by
-  intro i
-  induction i using Nat.strongRecOn with
-  | _ i ih =>
-    intro fm m0 fuel hfm hres hf hlt
-    obtain ⟨r, hr1, hr2⟩ := hr i fm hfm
+theorem filter_length_lt (l : List Nat) (p q : Nat → Bool) (i : Nat) (hi : i ∈ l) (hp : p i = true) (hq : q i = false)
+    (hqp : ∀ x, q x = true → p x = true) : (l.filter q).length < (l.filter p).length := by
+  induction l with
+  | nil => simp at hi
+  | cons a r ih =>
+    have hle : ∀ r : List Nat, (r.filter q).length ≤ (r.filter p).length := by
+      intro r
+      induction r with
+      | nil => simp
+      | cons b t iht =>
+        simp only [List.filter_cons]
+        by_cases hb : q b = true
+        · simp [hb, hqp b hb]; omega
+        · simp only [hb, Bool.false_eq_true, if_false]
+          split
+          · simp only [List.length_cons]; omega
+          · exact iht
+    simp only [List.filter_cons]
+    rcases List.mem_cons.mp hi with rfl | hmem
+    · simp only [hq, hp, Bool.false_eq_true, if_false, if_true, List.length_cons]
+      have := hle r
+      omega
+    · have := ih hmem
+      by_cases ha : q a = true
+      · simp [ha, hqp a ha]; omega
+      · simp only [ha, Bool.false_eq_true, if_false]
+        split
+        · simp only [List.length_cons]; omega
+        · exact this
+
+theorem freeForms_lt (env : Env) (active : List Nat) (j : Nat) (hj : j < env.forms.length)
+    (hact : active.contains j = false) : freeForms env (j :: active) < freeForms env active := by
+  unfold freeForms
+  have hact' : ¬ j ∈ active := by simpa using hact
+  refine filter_length_lt _ _ _ j (List.mem_range.mpr hj) (by simp [hact']) (by simp) ?_
+  intro x hx
+  simp only [Bool.not_eq_true', List.contains_cons, Bool.or_eq_false_iff] at hx
+  simpa using hx.2
+
+/-- A form never exhausts a budget larger than the number of forms not yet being painted: the
+`active_forms` guard bounds the nesting by the size of the form table, whatever the forms invoke. -/
+theorem runForm_budget (env : Env) : ∀ (n : Nat) (fm : Form) (m0 : MState) (fuel : Nat),
+    freeForms env m0.res.active ≤ n → n < fuel → m0.fuelOk = true → (Interp.runForm env fuel fm m0).2 = true := by
+  intro n
+  induction n with
+  | zero =>
+    intro fm m0 fuel hfree hlt hf
     cases fuel with
     | zero => omega
     | succ k =>
       simp only [Interp.runForm]
-      have hm0 : m0.res = r := by rw [hres, hr1]; rfl
-      refine (execToks_inv env (Interp.runForm env k) r ?_ fm.body m0 hm0 hf).2
-      intro n j fm' hj hfm' st0 hst0 hres0
-      have hji := hr2 n j hj
-      refine ih j hji fm' st0 k hfm' ?_ hst0 (by omega)
-      obtain ⟨r', hr1', _⟩ := hr j fm' hfm'
-      rw [hres0, hr1']; rfl
+      refine (execToks_inv env (Interp.runForm env k) m0.res ?_ fm.body m0 rfl hf).2
+      intro j fm' hfm' hact st0 _ _
+      have hjl : j < env.forms.length := by
+        rcases Nat.lt_or_ge j env.forms.length with h | h
+        · exact h
+        · rw [List.getElem?_eq_none h] at hfm'; simp at hfm'
+      have := freeForms_lt env m0.res.active j hjl hact
+      omega
+  | succ n ih =>
+    intro fm m0 fuel hfree hlt hf
+    cases fuel with
+    | zero => omega
+    | succ k =>
+      simp only [Interp.runForm]
+      refine (execToks_inv env (Interp.runForm env k) m0.res ?_ fm.body m0 rfl hf).2
+      intro j fm' hfm' hact st0 hst0 hres0
+      have hjl : j < env.forms.length := by
+        rcases Nat.lt_or_ge j env.forms.length with h | h
+        · exact h
+        · rw [List.getElem?_eq_none h] at hfm'; simp at hfm'
+      have := freeForms_lt env m0.res.active j hjl hact
+      exact ih fm' st0 k (by rw [hres0]; omega) (by omega) hst0
 
 end PdfVerif.Interp
